@@ -1,8 +1,9 @@
+import Huginn.Drv.C02
 import Huginn.Drv.C12
 import Huginn.Drv.C14
 namespace Huginn.Drv
 
 def allHandlers : List (String × (String → P Verdict)) :=
-  Huginn.Drv.C12.handlers ++ Huginn.Drv.C14.handlers
+  Huginn.Drv.C02.handlers ++ Huginn.Drv.C12.handlers ++ Huginn.Drv.C14.handlers
 
 end Huginn.Drv
